@@ -27,7 +27,7 @@ class CallMixin:
             if r is not None:
                 return r
         lc = getattr(self.contract, "local_contracts", None)
-        if lc and not self.spec_mode:
+        if lc:
             key = ast.unparse(fn)
             if key in lc:
                 args, kwargs = self.eval_args(node, st)
@@ -579,7 +579,11 @@ class CallMixin:
                 st.heap[(owner.t.get_id(), recv_node.attr)] = new
                 st.notes.setdefault("heap_terms", {})[(owner.t.get_id(), recv_node.attr)] = owner.t
                 return
-        raise Unsupported(f"mutation through {ast.unparse(recv_node)} (aliasing not modelled)")
+        txt = ast.unparse(recv_node)
+        if any(txt.startswith(u) for u in self.contract.unmodelled):
+            self.collector.assumptions.add(f"{self.kernel.qualname}: mutation of {txt} is outside the modelled state")
+            return
+        raise Unsupported(f"mutation through {txt} (aliasing not modelled)")
 
     def mutate(self, base: Sym, meth: str, node: ast.Call, st: State, recv_node) -> Sym:
         if self.spec_mode:
